@@ -32,6 +32,8 @@ def candidates(path, text):
             for m in re.finditer(pat, code):
                 if code[:m.start()].count('"') % 2 == 1:
                     continue                      # inside a string literal
+                if rep in ('>=', '<=') and re.search(r'\bfn\b|\bimpl\b|\bwhere\b|->|::<|\bVec<|\bOption<|\bResult<|\bParsed<|<\'|\bdyn\b|PhantomData|: &', code):
+                    continue                      # angle brackets of generics, not comparisons
                 if pat in (r'(?<![<>=!-])>(?![>=])', r'(?<![<>=!-])<(?![<=])') and (re.search(r'[A-Za-z_>]\s*$', code[:m.start()]) and re.match(r'\s*[A-Za-z_\'(&\[]', code[m.end():]) and ('<' in code and '>' in code) and not re.search(r'\b(if|while)\b', code)):
                     continue                      # generics, not comparisons
                 new = code[:m.start()] + rep + code[m.end():] + l[len(code):]
